@@ -3,6 +3,7 @@
 package otr3
 
 import (
+	"runtime"
 	"sort"
 	"bytes"
 	"crypto/sha256"
@@ -305,6 +306,15 @@ func init() {
 		Level: "model_checking",
 		Build: verifC20Sys,
 		ReplayCase: func(cj string, seed int64) []verifFinding {
+			if strings.Contains(cj, "\"points\"") {
+				tmp := &verifReport{Prop: "C20", Seed: seed, Tier: "quick", Outcomes: map[string]int64{}, Extra: map[string]interface{}{}}
+				c20RunPointsBinary(tmp)
+				var fs []verifFinding
+				for _, v := range tmp.Violations {
+					fs = append(fs, verifFinding{v.Sig, v.Detail})
+				}
+				return fs
+			}
 			// the race detector samples schedules: a race that exists shows up within a few runs
 			for try := 0; try < 4; try++ {
 				out, races := c20RunRaceBinary(seed)
@@ -315,8 +325,8 @@ func init() {
 			return nil
 		},
 		Run: func(r *verifReport) {
-			r.Rule = "threads = independent scripted conversation pairs (handshake by query or whitespace tag, texts with rotation, OTR error, SMP, fragmentation, extra key, End; different versions and policies per thread); ALL interleavings of their API calls (2 threads with full scripts, 3 threads with shortened ones) are executed on the real code, states matched on (positions, every thread's world); after EVERY step every package-level variable of package otr3 (list generated from the working tree) is compared bit for bit — deep, slices to full capacity — with its value after init, and the step's observable result (plaintext, error, events, hashes of emitted bytes) with the same step of the script run alone. Because conversations can only meet in package-level state, 'no step ever modifies it' implies that steps of different conversations commute at any granularity. Separately the same scripts run free on 16 goroutines under the race detector (sampling, corroboration only)"
-			r.Assumptions = []string{"a write to package-level state that is undone before the API call returns would escape the before/after comparison (the race-detector pass is what looks below API granularity, by sampling)", "memory-model effects below sequential consistency are not modelled"}
+			r.Rule = "threads = independent scripted conversation pairs (handshake by query or whitespace tag, texts with rotation, OTR error, SMP, fragmentation, extra key, End; different versions and policies per thread). (1) ALL interleavings of their API calls (2 threads with full scripts, 3 threads with shortened ones) are executed on the real code, states matched on (positions, every thread's world); after EVERY step every package-level variable of package otr3 (list generated from the working tree) is compared bit for bit — deep: byte buffers to full capacity, and a canonical hash of everything reachable — with its value after init, and the step's observable result (plaintext, error, events, hashes of emitted bytes) with the same step of the script run alone. (2) Point granularity, on a binary built from instrumented copies of the sources (a call at the entry of every function and before every statement that names a package-level variable): each script runs alone and the same comparison of all package-level variables is made at EVERY point (a write undone before the call returns is seen); two scripts run as goroutines under a cooperative scheduler and for EVERY access point k of either thread that thread is preempted at k, the other runs to completion, the first resumes (thorough: every function entry is a preemption point, and two preemptions at access points), each step compared with the solo run. Because conversations can only meet in package-level state, 'no point ever sees it modified' implies that steps of different conversations commute at that granularity. (3) Separately the same scripts run free on 16 goroutines under the race detector (sampling, corroboration only)"
+			r.Assumptions = []string{"a write to package-level state through an alias (a pointer or slice taken earlier), undone before the next function entry or named access, escapes the point comparison (the race-detector pass looks there, by sampling)", "memory-model effects below sequential consistency are not modelled"}
 			ids := []string{"T2/k01", "T2/k20"}
 			if r.Tier == "thorough" {
 				ids = []string{"T2/k01", "T2/k20", "T2/k12", "T2/k22", "T3/k012"}
@@ -329,6 +339,7 @@ func init() {
 			c20Unwalkable.Range(func(k, v interface{}) bool { unw = append(unw, fmt.Sprintf("%v: %v", k, v)); return true })
 			sort.Strings(unw)
 			r.Extra["package_level_variables_not_fully_walked"] = unw
+			c20RunPointsBinary(r)
 			out, races := c20RunRaceBinary(r.Seed)
 			r.Extra["race_detector_pass"] = strings.TrimSpace(out)
 			if races > 0 {
@@ -338,6 +349,70 @@ func init() {
 			}
 		},
 	}
+}
+
+// c20RunPointsBinary runs bin/otrmc-pts (instrumented copies of the sources, see prop_c20pts.go) in 16 shards
+func c20RunPointsBinary(r *verifReport) {
+	bin := filepath.Join(verifRoot(), "bin", "otrmc-pts")
+	if _, err := os.Stat(bin); err != nil {
+		r.Caps = append(r.Caps, "point-granularity pass could not run: bin/otrmc-pts not built")
+		return
+	}
+	n := runtime.NumCPU()
+	outs := make([]string, n)
+	var wg sync.WaitGroup
+	for sh := 0; sh < n; sh++ {
+		wg.Add(1)
+		go func(sh int) {
+			defer wg.Done()
+			cmd := exec.Command(bin, "c20points", r.Tier, fmt.Sprint(r.Seed), fmt.Sprint(sh), fmt.Sprint(n))
+			var buf bytes.Buffer
+			cmd.Stdout, cmd.Stderr = &buf, &buf
+			err := cmd.Run()
+			outs[sh] = buf.String()
+			if err != nil {
+				outs[sh] += fmt.Sprintf("\nc20points: shard %d failed: %v\n", sh, err)
+			}
+		}(sh)
+	}
+	wg.Wait()
+	var summary []string
+	var execs, points int64
+	for sh, o := range outs {
+		if !strings.Contains(o, "c20points: preemption") || strings.Contains(o, "failed:") || strings.Contains(o, "NOT-INSTRUMENTED") {
+			r.Caps = append(r.Caps, fmt.Sprintf("point-granularity pass, shard %d: %s", sh, verifTrunc2(o, 400)))
+			r.Exhaustive = false
+			continue
+		}
+		for _, line := range strings.Split(o, "\n") {
+			switch {
+			case strings.HasPrefix(line, "FINDING\t"):
+				f := strings.SplitN(line, "\t", 3)
+				if len(f) == 3 {
+					r.addCase("C20", f[1], f[2], map[string]string{"points": f[2]})
+				}
+			case strings.HasPrefix(line, "c20points: invariance"):
+				summary = append(summary, strings.TrimPrefix(line, "c20points: "))
+				var k, p, a, m int
+				fmt.Sscanf(line, "c20points: invariance script=%d points=%d access_points=%d modified=%d", &k, &p, &a, &m)
+				points += int64(p)
+			case strings.HasPrefix(line, "c20points: preemption"):
+				var e int
+				if i := strings.Index(line, "executions="); i >= 0 {
+					fmt.Sscanf(line[i:], "executions=%d", &e)
+				}
+				execs += int64(e)
+				if sh == 0 {
+					summary = append(summary, strings.TrimPrefix(line[:strings.Index(line, " executions=")], "c20points: "))
+				}
+			}
+		}
+	}
+	r.Extra["point_granularity_pass"] = summary
+	r.Extra["points_at_which_package_state_was_compared"] = points
+	r.Extra["one_preemption_schedules_executed"] = execs
+	r.Traces += execs
+	r.Transitions += points
 }
 
 // c20RunRaceBinary runs bin/otrmc-race (built by ./check for C20); returns its output and the number of race reports (-1: could not run)
